@@ -658,7 +658,7 @@ pub fn mutate(defs: &mut Vec<GDef>, r: &mut Rng, which: usize) -> &'static str {
         38 => { // make an input field a non-null reference to an input object (self, or any)
             let i = pick!(ins); let me = if let GDef::Type { name, .. } = &defs[i] { name.clone() } else { return "noop" };
             let t = if r.chance(1, 2) { me } else { pickn!(in_names) };
-            if let GDef::Type { inputs, .. } = &mut defs[i] { if !inputs.is_empty() { let j = r.below(inputs.len()); inputs[j].ty = T::n(&t).nn(); inputs[j].default = None; } }
+            if let GDef::Type { inputs, .. } = &mut defs[i] { if !inputs.is_empty() { let j = r.below(inputs.len()); inputs[j].ty = T::n(&t).nn(); inputs[j].default = if r.chance(1, 3) { Some("{}".to_string()) } else { None }; } }
             "input-nonnull-reference"
         }
         39 => { // close a non-null cycle of length 2 or 3 between fresh input objects, optionally entered from an existing one
@@ -667,7 +667,8 @@ pub fn mutate(defs: &mut Vec<GDef>, r: &mut Rng, which: usize) -> &'static str {
                 inputs.push(GIn { name: "pad".into(), ty: T::n("Int"), default: None, dirs: vec![] });
                 let nxt = T::n(&format!("Cyc{}", (k + 1) % n));
                 let ty = if k == n - 1 { match r.below(4) { 0 => nxt, 1 => nxt.nn().list().nn(), _ => nxt.nn() } } else { nxt.nn() };
-                inputs.push(GIn { name: "next".into(), ty, default: None, dirs: vec![] }); } defs.push(d); }
+                let default = if r.chance(1, 3) { Some((*r.pick(&["{}", "{pad: 1}"])).to_string()) } else { None };
+                inputs.push(GIn { name: "next".into(), ty, default, dirs: vec![] }); } defs.push(d); }
             "input-cycle-fresh"
         }
         40 => { // a directive uses itself on its own argument
